@@ -58,6 +58,11 @@ fn adversarial_f32() -> BoxedStrategy<f32> {
             2.0,
             0.5,
             f32::from_bits(0x3f00_0001), // 0.5 + ulp
+            1.0e-6,
+            8.0e-6,
+            1.0e-5,
+            1.0e-4,
+            1.0e-3,
             f32::MAX,
         ]),
         1 => any::<u32>().prop_map(f32::from_bits),
